@@ -696,6 +696,8 @@ impl NodeRecordStore {
 
         let record_key2 = record_key.clone();
         spawn(async move {
+            #[cfg(maidsafe_safe_network_verif)]
+            crate::verif::gate("store.write", format!("{file_path:?}")).await;
             let key = r.key.clone();
             if let Some(bytes) = Self::prepare_record_bytes(r, encryption_details) {
                 let cmd = match fs::write(&file_path, bytes) {
@@ -866,6 +868,8 @@ impl RecordStore for NodeRecordStore {
         let event_sender = self.network_event_sender.clone();
         // push the event off thread so as to be non-blocking
         let _handle = spawn(async move {
+            #[cfg(maidsafe_safe_network_verif)]
+            crate::verif::gate("store.unverified_event", format!("{:?}", record.key)).await;
             if let Err(error) = event_sender
                 .send(NetworkEvent::UnverifiedRecord(record))
                 .await
@@ -901,6 +905,8 @@ impl RecordStore for NodeRecordStore {
         let file_path = self.config.storage_dir.join(&filename);
 
         let _handle = spawn(async move {
+            #[cfg(maidsafe_safe_network_verif)]
+            crate::verif::gate("store.delete", format!("{file_path:?}")).await;
             match fs::remove_file(file_path) {
                 Ok(_) => {
                     info!("Removed record from disk! filename: {filename}");
@@ -995,6 +1001,9 @@ impl RecordStore for ClientRecordStore {
 
     fn remove_provider(&mut self, _key: &Key, _provider: &PeerId) {}
 }
+
+#[cfg(maidsafe_safe_network_verif)]
+mod verif;
 
 #[expect(trivial_casts)]
 #[cfg(test)]
